@@ -161,7 +161,20 @@ def havoc(eng, st, body, extra_alias=None, also_names=(), ordinal=None):
     s = st.fork()
     for n in sorted(names):
         if n in s.env:
-            s.env[n] = havoc_value(eng, n, s.env[n])
+            cur = s.env[n]
+            if isinstance(cur, Ref) and cur.kind == "list":
+                # a list variable that is REBOUND in the loop: afterwards it names some list of the same shape
+                cell = s.heap[cur.base]
+                base = eng.new_base(n)
+                ln = eng.fresh_len(base)
+                new = {"n": ln}
+                for key in [k_ for k_ in cell if k_.startswith("items")]:
+                    new[key] = eng.fresh(base + "." + key, cell[key].sort())
+                s = St(s.env, {**s.heap, base: new}, s.pc + [ln >= 0], s.ghost)
+                s.env = dict(s.env)
+                s.env[n] = Ref(base, "list")
+                continue
+            s.env[n] = havoc_value(eng, n, cur)
     # python-level containers mutated through methods (ldrs.append(x)) lose their contents
     for root, _f in store_roots(body):
         if root in s.env and isinstance(s.env[root], (list, dict)) and root not in names:
